@@ -187,6 +187,17 @@ Theorem C03_cleanup_reports : forall impl beh im mk,
 Proof. exact cleanup_reports. Qed.
 Print Assumptions C03_cleanup_reports.
 
+(* History level: whatever registrations, calls of OTHER methods and cleanups follow, an
+   expectation registered through EXPECT() whose method is never called is reported. *)
+Theorem C03_cleanup_reports_never_called : forall impl beh im mk0 mi s xs ss mk1 ops,
+  nth_error (im_methods im) mi = Some s -> m_test mk0 = true ->
+  (forall c, In c (m_calls mk0) -> c_method c <> ms_name s) ->
+  fst (step impl beh im mk0 (OExpect mi xs ss)) = mk1 -> mk1 <> mk0 ->
+  Forall (calls_other im (ms_name s)) ops ->
+  In (EvErrorf EAssert) (snd (snd (step impl beh im (fst (run_ops impl beh im mk1 ops)) OCleanup))).
+Proof. exact cleanup_reports_never_called. Qed.
+Print Assumptions C03_cleanup_reports_never_called.
+
 Theorem C03_unmet_spec : forall mk e,
   unmet mk e = true <-> (e_total e = 0 /\ was_called mk e = false) \/ (0 < e_rep e)%Z.
 Proof. exact unmet_spec. Qed.
